@@ -253,7 +253,10 @@ pub fn gen_unit(t: &mut Tape, ix: &Index, ctx: &[String], cfg: &GenCfg) -> Unit 
             (header_from_key(t, &ix.keys[k], skip, false, cfg.lexical), k)
         }
     };
-    let params: Vec<Ty> = ix.model.decl(ix.keys[key].target).map(|d| d.params.clone()).unwrap_or_default();
+    // arguments fit the declaration the header resolves to *in this context* (for a
+    // context-mismatched header that may be another declaration than the one it was built from)
+    let resolved = ix.model.resolve(ctx, &header).target.unwrap_or(ix.keys[key].target);
+    let params: Vec<Ty> = ix.model.decl(resolved).map(|d| d.params.clone()).unwrap_or_default();
     let args = gen_args(t, &params, &cfg.lit);
     let mut u = Unit::new(header, args);
     u.ws = gen_ws_slots(t, cfg.lexical);
